@@ -216,6 +216,7 @@ type Proc struct {
 	Results []OpResult
 	Err     error // commit (or begin/open) error
 	Aborted bool
+	Panic   string // non-empty: Commit (or an op) panicked
 	gating  bool
 	round5  bool
 	rdPark  bool
@@ -259,6 +260,14 @@ func (w *World) Spawn(idx int, pr Prog) (*Proc, error) {
 
 func (p *Proc) run() {
 	defer close(p.done)
+	defer func() {
+		// a panic inside Commit (same goroutine) would kill the harness: keep it as the transaction's outcome
+		if r := recover(); r != nil {
+			p.Panic = fmt.Sprint(r)
+			p.Err = fmt.Errorf("panic: %v", r)
+			p.gating = false
+		}
+	}()
 	p.park <- "begin"
 	<-p.resume
 	ctx := p.W.Ctx
